@@ -674,6 +674,8 @@ def _r_red(ck, world, table) -> None:
                 ck.ok('R-RED', fn, 'same class rebuilt from the reduced blocks over the same container', instance=inst)
             elif rt[0] == 'call' and rt[1][0] == 'var' and rt[1][1] == cls.name and len(rt[2]) == 1 and _maps_reduce(rt[2][0], S):
                 ck.ok('R-RED', fn, 'same class rebuilt from the reduced parts over the same container', instance=inst)
+            elif rt[0] == 'call' and rt[1] == ('call', ('var', 'type'), (S,), ()) and rt[2] in ((('RED', ('attr', S, 'operator')),),) and not rt[3]:
+                ck.ok('R-RED', fn, 'a lazy dual rebuilt around its reduced operand (same structures)', instance=inst)
             elif rt in (('call', ('attr', ('call', ('var', 'super'), (), ()), 'reduce'), (), ()), ('RED', ('call', ('var', 'super'), (), ()))):
                 ck.ok('R-RED', fn, 'the parent reduction (checked on the parent)', instance=inst, nontrivial=False)
             elif table.is_subclass(cls, table.by_name('AdditionOperator')) and _is_single_leaf(rt, S, p):
